@@ -4,9 +4,11 @@ import (
 	"encoding/json"
 	"fmt"
 	"hash/fnv"
+	"strings"
 	"time"
 
 	"verif/harness/internal/core"
+	"verif/harness/internal/gen"
 	"verif/harness/internal/nodespec"
 	"verif/harness/proto"
 )
@@ -84,7 +86,7 @@ func genLeaf(r *core.Rand, ncells int, vlen func(i int) int, tomb uint, flags in
 }
 
 func checkC12(c *core.Ctx) []core.Floor {
-	c.Rule = "nodes built with the engine's own primitives (sorted insert, split halves, updateCell, tombstone, markDirty, sibling links): leaves with every cell count 0-9, value lengths over 0..400 (all 401 in thorough, boundaries + sampled in quick), every tombstone mask for <= 6 cells, all four sibling-flag combinations, LSN in {0,1,2^32,2^64-1}; internal nodes with 0-290 cells and child offsets up to 2^40; both halves straight out of split. For each node: the encoding must be exactly 4096 bytes; decode(encode(n)), decode(encode(decode(encode(n)))) and a write through one fileStore + read through a second, cold fileStore must all have the same logical content as n. Distinct = node spec; non-trivial = the node has at least one cell."
+	c.Rule = "nodes built with the engine's own primitives (sorted insert, split halves, updateCell, tombstone, markDirty, sibling links): leaves with every cell count 0-9, value lengths over 0..400 (all 401 in thorough, boundaries + sampled in quick), every tombstone mask for <= 6 cells, all four sibling-flag combinations, LSN in {0,1,2^32,2^64-1}; internal nodes with 0-290 cells and child offsets up to 2^40; both halves straight out of split. For each node: the encoding must be exactly 4096 bytes; decode(encode(n)), decode(encode(decode(encode(n)))) and a write through one fileStore + read through a second, cold fileStore must all have the same logical content as n. Plus real pages: in histories with a flush after every statement every clean cached node is compared with the page decoded from the file. Distinct = node spec; non-trivial = the node has at least one cell."
 	c.Assume = []string{"only shapes the engine's primitives produce with ascending keys are judged", "byte layout of the free gap is not compared, only logical content"}
 	drv := mustDriver(c, false)
 	r := core.NewRand(core.SubSeed(c.Seed, "C12", 0))
@@ -245,8 +247,64 @@ func checkC12(c *core.Ctx) []core.Floor {
 			judgeNode(c, sp, nr)
 		}
 	})
+	// real pages: histories with a flush after every statement; every clean
+	// cached node must equal the page the file holds for it
+	nh := 24
+	if !quick {
+		nh = 400
+	}
+	core.ParallelFor(nh, c.Workers, func(i int) {
+		hr := core.NewRand(core.SubSeed(c.Seed, "C12H", i))
+		h := gen.NewHist(hr, false)
+		h.MaxTables = hr.Range(1, 3)
+		dir := c.CaseDir("c12h")
+		defer removeAll(dir)
+		var s script
+		s.cfg(true, 0)
+		s.k("init")
+		s.sql("CREATE DATABASE d1")
+		s.sql("USE d1")
+		var walks []int
+		n := hr.Range(20, 60)
+		for k := 0; k < n; k++ {
+			if hr.Chance(1, 6) && len(h.DB.Tables) > 0 {
+				s.stmt(h.Burst(h.DB.Tables[0], hr.Range(30, 120)))
+			} else {
+				s.stmt(h.Next())
+			}
+			s.k("flush")
+			walks = append(walks, s.add(proto.Op{K: "walk", M: 1, S: "filecmp"}))
+			if hr.Chance(1, 10) {
+				s.k("close")
+				s.k("session")
+				s.sql("USE d1")
+			}
+		}
+		out := core.RunScript(drv, dir, s.ops, 120*time.Second)
+		if out.Died {
+			c.Inconclusive("harvest", "harvest history died: "+core.FatalTail(out.Stderr))
+			return
+		}
+		for _, w := range walks {
+			r := out.Res[w]
+			if r.Failed() {
+				c.Inconclusive("harvest", "walk failed: "+r.Err+r.Panic)
+				return
+			}
+			c.Count("harvested_pages_compared_with_file", int64(r.Count))
+			for _, t := range r.Trees {
+				for _, pgd := range t.Pages {
+					if strings.HasPrefix(pgd.Err, "filecmp:") {
+						c.Violation("C12:real-page:file-differs-from-cached-node", fmt.Sprintf("table %s page %d: %s", t.Table, pgd.Off, clip(pgd.Err, 900)), map[string]interface{}{"history": i, "ops_before": w})
+						return
+					}
+				}
+			}
+		}
+		c.Eval(fmt.Sprintf("harvest-%d", i), true)
+	})
 	c.Sample(2, specs[3])
-	return []core.Floor{{Key: "nodes", Min: 500}, {Key: "leaf_9_cells_400_bytes", Min: 1}, {Key: "internal_290_cells", Min: 1}, {Key: "flags_0", Min: 1}, {Key: "flags_1", Min: 1}, {Key: "flags_2", Min: 1}, {Key: "flags_3", Min: 1}, {Key: "split_halves", Min: 10}, {Key: "store_round_trips", Min: 400}}
+	return []core.Floor{{Key: "nodes", Min: 500}, {Key: "leaf_9_cells_400_bytes", Min: 1}, {Key: "internal_290_cells", Min: 1}, {Key: "flags_0", Min: 1}, {Key: "flags_1", Min: 1}, {Key: "flags_2", Min: 1}, {Key: "flags_3", Min: 1}, {Key: "split_halves", Min: 10}, {Key: "store_round_trips", Min: 400}, {Key: "harvested_pages_compared_with_file", Min: 2000}}
 }
 
 func judgeNode(c *core.Ctx, sp nodespec.Spec, nr nodeRes) {
